@@ -424,6 +424,7 @@ func (ctx Ctx) packageMethod(f *ast.SelectorExpr,
 	if isIdent(f.X, "log") {
 		switch f.Sel.Name {
 		case "Print", "Printf", "Println":
+			ctx.checkLoggedArgs(args)
 			return coq.LoggingStmt{GoCall: ctx.printGo(call)}
 		}
 	}
@@ -443,6 +444,7 @@ func (ctx Ctx) packageMethod(f *ast.SelectorExpr,
 	if isIdent(f.X, "fmt") {
 		switch f.Sel.Name {
 		case "Println", "Printf":
+			ctx.checkLoggedArgs(args)
 			return coq.LoggingStmt{GoCall: ctx.printGo(call)}
 		}
 	}
@@ -1009,6 +1011,23 @@ func (ctx Ctx) isNilCompareExpr(e *ast.BinaryExpr) bool {
 		return false
 	}
 	return ctx.info.Types[e.Y].IsNil()
+}
+
+// checkLoggedArgs rejects arguments of a logging call that call a function:
+// the call is emitted as a comment, which would drop the callee's effects
+func (ctx Ctx) checkLoggedArgs(args []ast.Expr) {
+	for _, arg := range args {
+		ast.Inspect(arg, func(n ast.Node) bool {
+			if call, ok := n.(*ast.CallExpr); ok {
+				f, isIdent := call.Fun.(*ast.Ident)
+				isBuiltin := isIdent && ctx.goBuiltin(f) && (f.Name == "len" || f.Name == "cap")
+				if !ctx.info.Types[call.Fun].IsType() && !isBuiltin {
+					ctx.unsupported(call, "function call in an argument of a logging statement")
+				}
+			}
+			return true
+		})
+	}
 }
 
 // nonNegative recognizes signed expressions that cannot be negative: len,
